@@ -95,7 +95,8 @@ SchedStep(st, fr) ==
            LET st1 == [st EXCEPT !.tasks[k].ph = "body"] IN
            IF st.futs[tk.x] = <<>> THEN st1
            ELSE LET r == st.futs[tk.x][1] IN
-                Push(st1, (IF r[1] = "E" THEN <<CallE(tk.obs, r[2])>> ELSE <<CallN(tk.obs, r[2]), CallC(tk.obs)>>)
+                (* the scripted future counts every time it yields its result (counter 6): once per subscription *)
+                Push(st1, <<Bump(6)>> \o (IF r[1] = "E" THEN <<CallE(tk.obs, r[2])>> ELSE <<CallN(tk.obs, r[2]), CallC(tk.obs)>>)
                           \o <<F1("taskdone", k)>>)
          ELSE IF tk.kind = "stream" THEN Push([st EXCEPT !.tasks[k].ph = "body"], <<F1("streamstep", k)>>)
          ELSE Push([st EXCEPT !.tasks[k].ph = "body"], BodyFrames(st, k))
